@@ -11,7 +11,7 @@ import struct
 
 import numpy as np
 
-from mc import core, harness, refmodel, synth, treecheck
+from mc import core, env, harness, refmodel, synth, treecheck
 
 ID = "C17"
 LEVEL = "exploration"
@@ -168,6 +168,26 @@ def sweep(case):
     return {"ok": not fails, "failures": fails, "outcome": "ok" if not fails else "mismatch", "nontrivial": True, "n": n}
 
 
+def tz_sweep(case):
+    """the same instants under local time zones with daylight saving (nothing in the files is local time)"""
+    import datetime as _dt
+
+    fails, n, seen = [], 0, set()
+    with env.timezone(case["tz"]):
+        for mo, d in env.TZ_DAYS:
+            doy = (_dt.date(2021, mo, d) - _dt.date(2021, 1, 1)).days + 1
+            for hh in (0, 1, 2, 3):
+                n += 1
+                for f in one(case["level"], 2021, doy, (hh, 30, 5, 120), 7):
+                    k = core.jkey(f["sig"])
+                    if k not in seen:
+                        seen.add(k)
+                        f["detail"] = f"TZ={case['tz']}: {f['detail']}"
+                        f["case"] = {**case, "fn": "tz_sweep"}
+                        fails.append(f)
+    return {"ok": not fails, "failures": fails, "outcome": "ok" if not fails else "mismatch", "nontrivial": True, "n": n}
+
+
 FIRST_POINT_SECONDS = ("0.000001", "0.0000004", "0.9999996", "59.9999996", "86399.5", "86399.999999", "86399.9999996", "8.6399999E+04", "8.639999999999999E+04", "4.32E+04", "1", "86399")
 
 
@@ -175,9 +195,11 @@ def first_point(case):
     """decimal seconds of the platform-position first point, up to the last representable instant of the day"""
     y, mo, d = case["date"]
     fails = []
-    for text in FIRST_POINT_SECONDS:
+    # the date is three 4-character integers: zero-padded ("2016  01  16") and blank-padded ("2016   1  16") are the same date
+    date_text = (f"{y:04d}  {mo:02d}  {d:02d}" if not case.get("blank_padded") else f"{y:4d}{mo:4d}{d:4d}").encode()
+    for text in FIRST_POINT_SECONDS if not case.get("blank_padded") else FIRST_POINT_SECONDS[-3:]:
         spec = treecheck.spec_from_case({"spec": {"level": "1.5", "images": [["HH", None, 1, 1]], "leader": {"n_att": 1, "n_chan": 1}}})
-        spec = synth.with_dev(spec, "led", "platform_position", "datetime_of_first_point.date", f"{y:04d}  {mo:02d}  {d:02d}".encode())
+        spec = synth.with_dev(spec, "led", "platform_position", "datetime_of_first_point.date", date_text)
         spec = synth.with_dev(spec, "led", "platform_position", "datetime_of_first_point.seconds_of_day", text)
         files, _ = synth.build(spec)
         with harness.Product(files, "mcfs") as prod:
@@ -214,7 +236,7 @@ def run(res, tier, seed):
         "instants = (every day [thorough] | days 1,2,59,60,61,365,366 [quick]) of every year 2014..2049 x times 00:00:00.000,"
         " 12:34:56.789, 23:59:59.999 (+0/1/999 us for the us-of-day stamp) x levels 1.5 and 1.1; each instant is written into all"
         " time fields of one product at once; every time leaf is compared with the instant (and the whole tree with the"
-        " reference model); plus 16 times of day at every order of magnitude of the ms/us counters (1 ms .. 86 399 998 ms) on 4 days; plus 12 decimal-second texts of the" " platform-position first point up to 86399.9999996 s on 4 dates (1 us tolerance); plus images of 1025/1100/2049 lines (all per-line leaves compared) so that bulk code paths above the default"
+        " reference model); plus 16 times of day at every order of magnitude of the ms/us counters (1 ms .. 86 399 998 ms) on 4 days; plus hours 0-3 of eight daylight-saving switch-over days under four local time zones; plus 12 decimal-second texts of the" " platform-position first point up to 86399.9999996 s on 4 dates (1 us tolerance) and on 96 dates written blank-padded ('2016   1  16'); plus images of 1025/1100/2049 lines (all per-line leaves compared) so that bulk code paths above the default"
         " 1024-line chunk are exercised. A case is a batch of 6 days; all distinct, all non-trivial."
     )
     res.assumptions = ["day-of-year 1 = 1 January as the property states; leap seconds are not modelled"]
@@ -225,7 +247,10 @@ def run(res, tier, seed):
     for idx, case, out in core.pool_map(__name__, "sweep", [{"day": list(d)} for d in SWEEP_DAYS], chunksize=1):
         res.record({**case, "fn": "sweep"}, out, order=2 * 10**6 + idx)
         n += out["n"]
-    for idx, case, out in core.pool_map(__name__, "first_point", [{"date": list(d)} for d in ((2016, 2, 29), (2014, 8, 29), (2049, 12, 30), (2015, 1, 1))], chunksize=1):
+    for idx, case, out in core.pool_map(__name__, "tz_sweep", [{"tz": tz, "level": lv} for tz in env.TZ_RULES for lv in ("1.5", "1.1")], chunksize=1):
+        res.record({**case, "fn": "tz_sweep"}, out, order=4 * 10**6 + idx)
+        n += out["n"]
+    for idx, case, out in core.pool_map(__name__, "first_point", [{"date": list(d)} for d in ((2016, 2, 29), (2014, 8, 29), (2049, 12, 30), (2015, 1, 1))] + [{"date": [y, mo, d], "blank_padded": True} for y in (2016, 2049) for mo in (1, 2, 9, 10, 11, 12) for d in (1, 6, 9, 10, 11, 16, 23, 28)], chunksize=1):
         res.record({**case, "fn": "first_point"}, out, order=3 * 10**6 + idx)
         n += out["n"]
     big = [{"level": lv, "lines": L, "rpc": rpc} for lv in ("1.5", "1.1") for L, rpc in ((1025, None), (1100, 512), (2049, None))]
